@@ -92,15 +92,45 @@ type MemberBC struct {
 	paused bool
 	held   []*block.Block
 	out    chan *block.Block
+
+	// Drop, if set, is asked for every submission (class key "tx:<class>" / "nr:<class>"); when it answers true the
+	// submission is acknowledged to the member but never forwarded to the node (lossy delivery).
+	Drop func(key string) bool
+	lost map[string]int
 }
 
 func NewMemberBC(cl *rpcclient.Internal) *MemberBC {
-	return &MemberBC{Internal: cl, sent: map[string]int{}, rej: map[string]int{}}
+	return &MemberBC{Internal: cl, sent: map[string]int{}, rej: map[string]int{}, lost: map[string]int{}}
+}
+
+func (m *MemberBC) dropped(c string) bool {
+	if m.Drop == nil || !m.Drop(c) {
+		return false
+	}
+	m.mu.Lock()
+	m.sent[c]++
+	m.lost[c]++
+	m.mu.Unlock()
+	return true
+}
+
+// Lost returns the number of submissions that were acknowledged but not forwarded.
+func (m *MemberBC) Lost() int {
+	m.mu.Lock()
+	defer m.mu.Unlock()
+	n := 0
+	for _, v := range m.lost {
+		n += v
+	}
+	return n
 }
 
 func (m *MemberBC) SendRawTransaction(tx *transaction.Transaction) (util.Uint256, error) {
-	h, err := m.Internal.SendRawTransaction(tx)
 	c := "tx:" + Classify(tx.Script)
+	if m.dropped(c) {
+		return tx.Hash(), nil
+	}
+	h, err := m.Internal.SendRawTransaction(tx)
 	m.mu.Lock()
 	if err == nil {
 		m.sent[c]++
@@ -112,8 +142,11 @@ func (m *MemberBC) SendRawTransaction(tx *transaction.Transaction) (util.Uint256
 }
 
 func (m *MemberBC) SubmitP2PNotaryRequest(req *payload.P2PNotaryRequest) (util.Uint256, error) {
-	h, err := m.Internal.SubmitP2PNotaryRequest(req)
 	c := "nr:" + Classify(req.MainTransaction.Script)
+	if m.dropped(c) {
+		return req.FallbackTransaction.Hash(), nil // what the node answers (notary.Actor compares it)
+	}
+	h, err := m.Internal.SubmitP2PNotaryRequest(req)
 	m.mu.Lock()
 	if err == nil {
 		m.sent[c]++
